@@ -405,6 +405,9 @@ int strToInt(GenState &gs, Node *c) {
 
 int strToIntSilent(Node *c) {
   long v = std::strtol(c->tok.c_str(), NULL, 10);
+  // out-of-range literals have already been reported by strToInt; keep the
+  // value inside the word so that the caller can negate it
+  if (v > INT_MAX) v = INT_MAX;
   return v;
 }
 
